@@ -67,6 +67,8 @@ var c12Allow = []allowEntry{
 }
 
 func runC12(p *Prog, r *Report) {
+	closerLeaks(p, r, "C12.16/closer-leak", func(rel string) bool { return strings.HasPrefix(rel, "transport") || rel == "internal/core" || rel == "macat" })
+	r.Floor("C12.16/closer-leak", "e11.acquisitions.C12.16/closer-leak", 8)
 	{
 		q := NewQ(p, r)
 		R := "C12.6/in-progress-flag-cleared"
